@@ -135,39 +135,91 @@ def case_fn(ctx, inp):
         inchunks = tuple(tuple(n for n in c if n) or (0,) for c in inp["inchunks"])
         inshape = tuple(sum(c) for c in inchunks)
         outshape = tuple(inp["outshape"])
-        if math.prod(len(c) for c in inchunks) == 1:
-            return  # reshape() never calls reshape_rechunk for a single-block input
+        single = math.prod(len(c) for c in inchunks) == 1   # reshape() never calls reshape_rechunk for a single-block input
+        trace = []
+        orig_smooth = R._smooth_chunks
+
+        def traced(ileft, ii, max_in_chunk, result_inchunks):
+            # measurement only: which branch of _smooth_chunks this call takes
+            mr = R._cal_max_chunk_size(result_inchunks, ileft, ii)
+            if mr == max_in_chunk:
+                trace.append("equal-max")
+            else:
+                k = ileft
+                while k <= ii and all(v == 1 for v in result_inchunks[k]):
+                    k += 1
+                trace.append("past-group" if k > ii else "single-chunk" if len(result_inchunks[k]) == 1 else "multi-chunk")
+            return orig_smooth(ileft, ii, max_in_chunk, result_inchunks)
+        R._smooth_chunks = traced
         try:
             ri, ro, _, _ = R.reshape_rechunk(inshape, outshape, inchunks)
+            impl = [Sym("ok"), [list(map(int, c)) if c is not None else None for c in ri],
+                    [list(map(int, c)) if c is not None else None for c in ro]]
         except NotImplementedError:
-            ctx.branch("reshape_rechunk:not-implemented")
+            ri, impl = None, [Sym("raised"), Sym("NotImplementedError")]
+        except IndexError:
+            ri, impl = None, [Sym("raised"), Sym("IndexError")]
+        except (TypeError, AssertionError, ZeroDivisionError, ValueError):
+            ri, impl = None, [Sym("raised"), Sym("other")]
+        finally:
+            R._smooth_chunks = orig_smooth
+        for t in set(trace):
+            ctx.branch("reshape_rechunk:_smooth_chunks:" + t)
+        if len(trace) > 1:
+            ctx.branch("reshape_rechunk:_smooth_chunks:%d-rounds" % min(len(trace), 4))
+        # function level: the whole two-pointer walk (branches, expand/contract, _smooth_chunks) vs the Lean reshapeRechunk
+        m = ctx.lean(Sym("reshape_rechunk"), list(inshape), list(outshape), [list(c) for c in inchunks])
+        ctx.eq("reshape_rechunk vs Lean reshapeRechunk", m[:3] if m[0] == Sym("ok") else m, impl)
+        if ri is None:
+            ctx.branch("reshape_rechunk:" + ("not-implemented" if impl[1] == Sym("NotImplementedError") else "raised"))
+            if impl[1] != Sym("NotImplementedError") and min(inshape + outshape) > 0 and math.prod(inshape) == math.prod(outshape):
+                ctx.fail("reshape_rechunk raised something other than NotImplementedError on valid shapes", observed=str(impl[1]))
+            return
+        if min(inshape + outshape) == 0:
             return
         # post-condition the graph construction of `reshape` relies on
-        if not all(valid_dim(c, s) for c, s in zip(ri, inshape)) or not all(valid_dim(c, s) for c, s in zip(ro, outshape)):
+        if any(c is None for c in ri + ro) or not all(valid_dim(c, s) for c, s in zip(ri, inshape)) \
+                or not all(valid_dim(c, s) for c, s in zip(ro, outshape)):
             ctx.fail("reshape_rechunk: returned chunks are not valid chunkings of the shapes", observed=[ri, ro])
             return
         bi = [math.prod(t) for t in itertools.product(*ri)]
         bo = [math.prod(t) for t in itertools.product(*ro)]
         if bi != bo:
             ctx.fail("reshape_rechunk: input and output blocks (in product order) do not have equal sizes", observed=[ri, ro])
+        # proved-plan checker (theorem reshape_blocks_den): with the axis groups the walk consumed, both sides of every group
+        # must be contiguous (all-ones axes, one arbitrary axis, single-chunk axes) with equal block sizes -- then the k-th
+        # block of the rechunked input, reshaped in C order, IS the k-th block of the reshaped array
+        if m[0] == Sym("ok"):
+            groups = m[3]
+            ok_real = ctx.lean(Sym("reshape_check"), [list(map(int, c)) for c in ri], [list(map(int, c)) for c in ro], groups)
+            if ok_real is not True or (m[4] is not True and m[:3] == impl):
+                ctx.fail("reshape_rechunk: the plan is not a product of contiguous axis groups with equal block sizes "
+                         "(block-wise reshape would not be the global reshape)", observed=[ri, ro, groups])
+            kinds = set()
+            pi, po = 0, 0
+            for a, b in groups:
+                if a > 1 and b == 1:
+                    ii = pi + a - 1
+                    special = all(len(inchunks[t]) == inshape[t] for t in range(ii))
+                    red = math.prod(len(inchunks[t]) for t in range(pi + 1, ii + 1))
+                    g0 = (R.expand_tuple(inchunks[pi], red),) + tuple((inshape[t],) for t in range(pi + 1, ii + 1))
+                    smoothed = (not special) and tuple(map(tuple, ri[pi:ii + 1])) != tuple(map(tuple, g0))
+                    rounds = sum(1 for x, y in zip(ri[pi:ii + 1], g0) if tuple(x) != tuple(y))
+                    kinds.add("merge:" + ("moving-blocks" if special else ("smoothed-%d-axes" % min(rounds, 3)) if smoothed else "plain")
+                              + (":%d-axes" % min(a, 4)))
+                elif a == 1 and b > 1:
+                    g0 = tuple((outshape[t],) for t in range(po + 1, po + b))
+                    smoothed = tuple(map(tuple, ro[po + 1:po + b])) != g0 or \
+                        tuple(ro[po]) != tuple(c // math.prod(outshape[po + 1:po + b]) for c in R.contract_tuple(inchunks[pi], math.prod(outshape[po + 1:po + b])))
+                    kinds.add("split:" + ("smoothed" if smoothed else "plain") + (":%d-axes" % min(b, 4)))
+                elif (a, b) == (1, 0):
+                    kinds.add("in-one")
+                elif (a, b) == (0, 1):
+                    kinds.add("out-one")
+                pi, po = pi + a, po + b
+            for k in kinds:
+                ctx.branch("reshape_rechunk:" + k + (":single-block-input" if single else ""))
         ctx.branch("reshape_rechunk:" + ("merge" if len(inshape) > len(outshape) else "split" if len(inshape) < len(outshape) else "same-ndim"))
-        # proved checker (reshape_merge_den / reshape_merge_ones_den): a (R, m) <-> (R*m,) plan must have one of the two
-        # shapes for which block-wise C-order reshape is the global reshape
-        two, one = None, None
-        if len(inshape) == 2 and len(outshape) == 1:
-            two, one = ri, ro[0]
-        elif len(inshape) == 1 and len(outshape) == 2:
-            two, one = ro, ri[0]
-        if two is not None and min(two[0] + two[1] + tuple(one)) > 0:
-            rows_c, cols_c = tuple(two[0]), tuple(two[1])
-            m_ = sum(cols_c)
-            whole_rows = len(cols_c) == 1 and tuple(one) == tuple(c * m_ for c in rows_c)
-            ones_rows = all(c == 1 for c in rows_c) and tuple(one) == cols_c * len(rows_c)
-            if whole_rows or ones_rows:
-                ctx.branch("reshape_rechunk:proved-plan:" + ("whole-rows" if whole_rows else "ones"))
-            else:
-                ctx.fail("reshape_rechunk: a (R, m) <-> (R*m,) plan is neither 'whole rows per block' nor 'one row per block'"
-                         " (block-wise reshape would not be the global reshape)", observed=[ri, ro])
     elif op == "pad_chunks":
         import dask.array as da
         from dask.array.creation import get_pad_shapes_chunks
@@ -271,6 +323,40 @@ def case_roll1d(ctx, inp):
     ctx.branch("roll1d" + (":wrap" if abs(s) >= max(len(x), 1) else ""))
 
 
+def _reshape_blocks_tie(ctx, x, d, r, merge_chunks):
+    """block level: the Lean `blocksFlat` of the C-order data (the semantics the theorem reshape_blocks_den is about) vs the
+    real blocks on both sides of `reshape`'s graph: the rechunked input and the result, blocks in product order."""
+    import importlib
+    import numpy as np
+    R = importlib.import_module("dask.array.reshape")
+    if x.size == 0 or r.ndim == 0 or x.ndim == 0 or tuple(r.shape) == tuple(x.shape):
+        return
+    d0 = d
+    if any(0 in c for c in d0.chunks):
+        d0 = d0.rechunk(tuple(tuple(n for n in c if n) for c in d0.chunks))
+    if d0.npartitions == 1:
+        return
+    if not merge_chunks and d0.ndim > r.ndim:
+        d0 = d0.rechunk(dict.fromkeys(range(d0.ndim - r.ndim), 1))
+    try:
+        ri, ro, _, _ = R.reshape_rechunk(d0.shape, tuple(r.shape), d0.chunks)
+    except NotImplementedError:
+        return
+    if math.prod(len(c) for c in ri) > 48:
+        return
+    if tuple(map(tuple, ro)) != tuple(map(tuple, r.chunks)):
+        ctx.fail("reshape: the result's chunks are not reshape_rechunk's output chunks", observed=r.chunks, expected=ro)
+        return
+    flat = [int(v) for v in x.ravel()]
+    x2 = d0.rechunk(ri)
+    for what, arr, dims in (("rechunked input", x2, ri), ("result", r, ro)):
+        model = ctx.lean(Sym("blocks_flat"), [list(map(int, c)) for c in dims], flat)
+        real = [np.asarray(arr.blocks[idx].compute(scheduler="sync")).ravel().tolist()
+                for idx in itertools.product(*[range(len(c)) for c in dims])]
+        ctx.eq(f"reshape: C-order data of every block of the {what} vs Lean blocksFlat", model, real)
+    ctx.branch("reshape:blocks-diffed")
+
+
 def case_op(ctx, inp):
     import numpy as np
     import dask.array as da
@@ -288,6 +374,7 @@ def case_op(ctx, inp):
             return
         ctx.branch("reshape:" + ("merge" if len(tgt) < x.ndim else "split" if len(tgt) > x.ndim else "same") +
                    ("" if inp.get("merge_chunks", True) else ":no-merge-chunks"))
+        _reshape_blocks_tie(ctx, x, d, r, inp.get("merge_chunks", True))
     elif op == "transpose":
         axes = inp["axes"]
         r, e = d.transpose(axes), x.transpose(axes)
@@ -580,6 +667,59 @@ def _factor_targets(rng, shape):
     return out
 
 
+def _factorizations(n, maxlen):
+    out = set()
+
+    def rec(pre, rem, k):
+        out.add(tuple(pre + [rem]))
+        if k > 1:
+            for dd in range(1, rem + 1):
+                if rem % dd == 0:
+                    rec(pre + [dd], rem // dd, k - 1)
+    rec([], n, maxlen)
+    return sorted(out)
+
+
+def _gen_rr(rng):
+    """a reshape_rechunk input aimed at the merge / split branches and `_smooth_chunks`"""
+    nd = rng.randint(2, 4)
+    shape = [rng.choice([1, 2, 2, 3, 4, 5, 6, 8, 10, 12]) for _ in range(nd)]
+    style = rng.choice(["lead-ones", "lead-ones", "coarse-lead", "fine-tail", "random", "random", "one-big-rest-ones"])
+    chunks = []
+    for a, s0 in enumerate(shape):
+        if style == "lead-ones" and a < nd - 1:
+            chunks.append([1] * s0)
+        elif style == "coarse-lead" and a == 0:
+            chunks.append(rand_comp(rng, s0, rng.choice(["single", "uniform", "irregular"])))
+        elif style == "fine-tail" and a == nd - 1:
+            chunks.append(rand_comp(rng, s0, rng.choice(["ones", "uniform"])))
+        elif style == "one-big-rest-ones":
+            chunks.append([s0] if a == 0 else [1] * s0)
+        else:
+            chunks.append(rand_comp(rng, s0))
+    if rng.random() < 0.5:
+        # merge: collapse a run of adjacent axes (maybe all), keep the others, sprinkle 1-axes
+        i = rng.randrange(nd - 1)
+        j = rng.randint(i + 1, nd - 1)
+        out = shape[:i] + [math.prod(shape[i:j + 1])] + shape[j + 1:]
+        if rng.random() < 0.25:
+            out.insert(rng.randint(0, len(out)), 1)
+        return {"op": "reshape_rechunk", "inchunks": chunks, "outshape": out}
+    # split: the merged shape is the input, the n-d shape the target
+    i = rng.randrange(nd - 1)
+    j = rng.randint(i + 1, nd - 1)
+    ins = shape[:i] + [math.prod(shape[i:j + 1])] + shape[j + 1:]
+    inch = [rand_comp(rng, s0) for s0 in ins]
+    if rng.random() < 0.4:
+        # chunks that are multiples of the trailing product / of one row
+        cs = math.prod(shape[i + 1:j + 1])
+        inch[i] = [c * cs for c in rand_comp(rng, shape[i])]
+    out = list(shape)
+    if rng.random() < 0.25:
+        out.insert(rng.randint(0, len(out)), 1)
+    return {"op": "reshape_rechunk", "inchunks": inch, "outshape": out}
+
+
 def _gen_op(rng):
     op = rng.choice(["reshape", "reshape", "reshape", "transpose", "moveaxis", "swapaxes", "squeeze", "expand_dims",
                      "broadcast_to", "flip", "rot90", "take", "shuffle", "repeat", "tile", "pad", "pad", "pad",
@@ -854,6 +994,21 @@ def generate(ctx):
                 rest = math.prod(t for t in tgt if t != -1)
                 tgt[k] = math.prod(shape) // max(rest, 1)
             yield "fn", {"op": "reshape_rechunk", "inchunks": chunks, "outshape": tgt}
+    # every (inshape, outshape) pair of factorisations (<= 3 axes) of n <= 6 (9 thorough) with every input chunking: the whole
+    # reshape_rechunk walk vs the Lean model + the proved-plan checker
+    for n in range(2, (6 if not ctx.thorough() else 9) + 1):
+        shapes = _factorizations(n, 3)
+        for ins in shapes:
+            for outs in shapes:
+                if ins == outs:
+                    continue
+                for inch in itertools.product(*[comps(s0) for s0 in ins]):
+                    if math.prod(len(c) for c in inch) > 1:
+                        yield "fn", {"op": "reshape_rechunk", "inchunks": [list(c) for c in inch], "outshape": list(outs)}
+    # larger shapes: merges of 3-4 axes whose leading axes are fully chunked / coarse, splits of a long axis (aims at
+    # `_smooth_chunks`: single-chunk rounds, the multi-chunk branch) and the "moving blocks" special case
+    for _ in range(ctx.n(250, 4000)):
+        yield "fn", _gen_rr(rng)
     for _ in range(ctx.n(80, 1000)):
         R, m = rng.randint(1, 7), rng.randint(1, 7)
         rc = rand_comp(rng, R, rng.choice(["ones", "irregular", "uniform", "single"]))
